@@ -1,6 +1,9 @@
 """C04 - methods execute exactly when called by a running caller."""
 
+from hypothesis import strategies as st
+
 from tv.designs import gen_spec
+from tv.props import c12
 from tv.props._core_a import run_design, tier_opts
 
 ID = "C04"
@@ -17,14 +20,25 @@ TECHNIQUE = "grammar-based design generation + exhaustive input valuations again
 
 
 def budget(tier):
-    return dict(examples=25, seconds=45) if tier == "quick" else dict(examples=300, seconds=420)
+    return dict(examples=70, seconds=45) if tier == "quick" else dict(examples=300, seconds=420)
 
 
 def strategy(tier):
-    return gen_spec(**{**tier_opts(tier), **dict(allow_rels=False)})
+    general = gen_spec(**{**tier_opts(tier), **dict(allow_rels=False)})
+    # one case in five is a condition() block reached through a guarded call chain (C12's generator): its branches
+    # are nested transactions, for which this property demands: a condition() branch (a nested transaction) never runs in a cycle where its enclosing body does not run
+    cond = c12.strategy(tier).map(lambda sp: {"gen": "condition", "spec": sp})
+    return st.integers(0, 4).flatmap(lambda k: cond if k == 4 else general)
 
 
 def run_case(case):
+    if case.get("gen") == "condition":
+        res = c12.run_case(case["spec"])
+        res.labels = ["condition_block"] + res.labels
+        if res.violation is not None and not res.violation.startswith(('P1', 'branch')):
+            res.violation = None  # the other clauses of C12 are not this property's business
+        res.nontrivial = res.nontrivial and "guarded_call" in res.labels
+        return res
     res, an, orc, exc = run_design(case, ["c04"])
     if orc is None:
         return res
